@@ -2,6 +2,7 @@
 from engine import Query as Q
 
 CHECKS = {}
+HP_ABORT = 'basic_smr4scanE|basic_smr9help_scanE|basic_smr12classic_scanE|basic_smr12inplace_scanE'
 
 # ---------------------------------------------------------------- C25
 def _c25():
@@ -93,7 +94,7 @@ CHECKS['C28'] = {
     'queries': _c28(), 'level': 'model_checking',
     'outside': ['8-byte hashes with a requested head_bits > 48 (a head array of more than 2^48 slots cannot be allocated; metrics::make would shift by 64 for head_bits == 64)',
                 'user-supplied hash_splitter types other than the default select_splitter choice; non-integral hash types wider than 8 bytes',
-                'the tree code of multilevel_array::traverse/expand_slot itself (pointer-rich, needs an SMR): the harness replays its cut sequence on the real splitter and metrics'],
+                'the tree code of multilevel_array::traverse/expand_slot and FeldmanHashSet::insert itself: a sequential harness over the real hazard-pointer environment exists (attic/c28b_feldman_set.cpp.txt, 2 inserts with symbolic 1-byte hashes) but cbmc runs out of 16 GB even on a concrete input, so the claim stops at the addressing arithmetic: the harness replays the cut sequence of traverse on the real splitter and metrics'],
     'assumptions': [],
 }
 
@@ -226,7 +227,8 @@ def _c21():
                     unwind=max(U, nn + 2, nops + 1), timeout=timeout, tiers=tiers, validate=6, **kw))
     q('freelist_T2_n2_ops1_K4', 0, 2, 4, 2, 1)
     q('tagged_T2_n2_ops1_K4', 1, 2, 4, 2, 1)
-    q('cached_freelist_T2_n2_ops1_K4', 2, 2, 4, 2, 1, unwind_fn={'h_check': 6, r'CachedFreeList.*3getEv_T.\.2': 6})
+    q('cached_freelist_T2_n1_ops1_K3', 2, 2, 3, 1, 1, unwind_fn={'h_check': 6, r'CachedFreeList.*3getEv': 6}, coro_style='guard')
+    q('cached_freelist_T2_n2_ops1_K4', 2, 2, 4, 2, 1, unwind_fn={'h_check': 6, r'CachedFreeList.*3getEv': 6}, coro_style='guard', tiers=('thorough',), timeout=3000)
     # two steps per thread: the 16 step-kind combinations are separate queries (concrete kinds keep symex small); initial ownership and schedule stay symbolic
     for sc in range(16):
         q('freelist_T2_n2_ops2_K4_script%d' % sc, 0, 2, 4, 2, 2, script=sc, tiers=('quick', 'thorough') if sc in (0, 1, 4, 6, 9) else ('thorough',))
@@ -236,7 +238,7 @@ def _c21():
     q('freelist_T2_n2_ops2_K6_script6', 0, 2, 6, 2, 2, U=5, script=6, tiers=('thorough',), timeout=3000)
     q('freelist_T3_n2_ops1_K4', 0, 3, 4, 2, 1, tiers=('thorough',), timeout=3000)
     q('freelist_T2_n3_ops2_K4', 0, 2, 4, 3, 2, tiers=('thorough',), timeout=3000)
-    q('cached_tagged_T2_n2_ops1_K4', 3, 2, 4, 2, 1, unwind_fn={'h_check': 6, r'CachedFreeList.*3getEv_T.\.2': 6}, tiers=('thorough',), timeout=3000)
+    q('cached_tagged_T2_n2_ops1_K4', 3, 2, 4, 2, 1, unwind_fn={'h_check': 6, r'CachedFreeList.*3getEv': 6}, tiers=('thorough',), timeout=3000)
     return qs
 CHECKS['C21'] = {
     'queries': _c21(), 'level': 'model_checking',
@@ -256,9 +258,10 @@ def _c24():
                     spin={'do_alloc|do_free': U}, unwind=max(U, cap, nops, T * maxhold) + 2, timeout=timeout, tiers=tiers, validate=6, coro_style=style))
     q('vyukov_pool_T2_n1_K4', 0, 2, 4, 1)
     q('lazy_pool_T2_n1_K4', 1, 2, 4, 1)
-    q('bounded_pool_T2_n1_K4', 2, 2, 4, 1, maxhold=1)
+    q('bounded_pool_T2_n1_K4', 2, 2, 4, 1, maxhold=1, tiers=('thorough',), timeout=3000)
+    q('bounded_pool_T2_n1_K3', 2, 2, 3, 1, maxhold=1)
     q('pool_allocator_T2_n1_K4', 3, 2, 4, 1)
-    q('vyukov_pool_T3_n1_K4', 0, 3, 4, 1, maxhold=1)
+    q('vyukov_pool_T3_n1_K4', 0, 3, 4, 1, maxhold=1, tiers=('thorough',), timeout=3000)
     q('vyukov_pool_T2_n2_K4', 0, 2, 4, 2, tiers=('thorough',), timeout=3000)
     q('lazy_pool_T2_n2_K4', 1, 2, 4, 2, tiers=('thorough',), timeout=3000)
     q('bounded_pool_T2_n2_K4', 2, 2, 4, 2, maxhold=1, tiers=('thorough',), timeout=3000)
@@ -276,7 +279,6 @@ CHECKS['C24'] = {
 
 
 # ---------------------------------------------------------------- C09
-HP_ABORT = 'basic_smr4scanE|basic_smr9help_scanE|basic_smr12classic_scanE|basic_smr12inplace_scanE'
 def _c09():
     qs = []
     def q(name, T, K, nops, pre=2, intr=0, ic=0, tiers=('quick', 'thorough'), timeout=900, U=3, style='goto'):
@@ -285,7 +287,8 @@ def _c09():
                     cxxflags=['-fno-access-control'], object_bits=12, coro_style=style, atomic_fn='hp_env_model_pass', abort_fn=HP_ABORT, mem_gb=(16 if 'quick' in tiers else 40)))
     q('treiber_value_T2_n1_K4', 2, 4, 1)
     q('treiber_intrusive_T2_n1_K4', 2, 4, 1, intr=1)
-    q('treiber_value_T2_n1_K6_ic', 2, 6, 1, ic=1)
+    q('treiber_value_T2_n1_K5_ic', 2, 5, 1, ic=1)
+    q('treiber_value_T2_n1_K6_ic', 2, 6, 1, ic=1, tiers=('thorough',), timeout=3000)
     q('treiber_value_T3_n1_K4', 3, 4, 1, pre=1, tiers=('thorough',), timeout=3000)
     q('treiber_value_T2_n2_K4', 2, 4, 2, pre=1, tiers=('thorough',), timeout=3000)
     q('treiber_intrusive_T2_n2_K5', 2, 5, 2, pre=1, intr=1, tiers=('thorough',), timeout=3000)
@@ -313,7 +316,7 @@ def _c06():
     q('rwqueue_T2_n2_K5', 4, 2, 5, 2, pre=1, tiers=('thorough',), timeout=3000)
     q('rwqueue_T3_n1_K5', 4, 3, 5, 1, pre=1, tiers=('thorough',), timeout=3000)
     q('msqueue_T2_n1_K4', 0, 2, 4, 1, pre=1, U=2, tiers=('thorough',), timeout=3000)
-    q('moirqueue_T2_n1_K4', 1, 2, 4, 1, pre=1, U=2)
+    q('moirqueue_T2_n1_K4', 1, 2, 4, 1, pre=1, U=2, tiers=('thorough',), timeout=3000)
     q('basketqueue_T2_n1_K4', 2, 2, 4, 1, pre=1, U=2, tiers=('thorough',), timeout=3000)
     q('msqueue_T2_n1_K4_ic', 0, 2, 4, 1, pre=1, U=2, ic=1, tiers=('thorough',), timeout=3000)
     return qs
@@ -364,7 +367,8 @@ def _c04():
                     spin={'flip_and_wait|do_sync|do_retire|synchronize|spin_lock': U}, unwind=max(U, T + 2, nupd * T + 2, bufcap + 2) + 1, timeout=timeout, tiers=tiers, validate=6,
                     object_bits=12, coro_style=style, atomic_fn=('clear_buffer' if kind == 1 else None)))
     q('gpi_reader_vs_updater_T2_K4', 0, 2, 4)
-    q('gpi_reader_vs_updater_T2_K5_u2r1', 0, 2, 5, nupd=2, nread=1)
+    q('gpi_reader_vs_updater_T2_K4_u2r1', 0, 2, 4, nupd=2, nread=1)
+    q('gpi_reader_vs_updater_T2_K5_u2r1', 0, 2, 5, nupd=2, nread=1, tiers=('thorough',), timeout=3000)
     q('gpi_reader_vs_updater_T2_K6_u2r2', 0, 2, 6, nupd=2, nread=2, tiers=('thorough',), timeout=3000)
     q('gpi_2readers_vs_updater_T3_K5', 0, 3, 5, third_reader=1)
     q('gpi_reader_vs_2updaters_T3_K5', 0, 3, 5, tiers=('thorough',), timeout=3000)
